@@ -114,7 +114,8 @@ fn summarize(fam: &Family, prop: &str, rec: &RunRecord, want_sample: bool) -> Su
         let scope: Option<&[&str]> = match prop {
             "C01" => Some(&["/trippy-core/", "/trippy-packet/"]),
             "C06" | "C08" => Some(&["/strategy.rs"]),
-            "C10" => Some(&["/state.rs"]),
+            // (the path length a round reports is worked out in strategy.rs)
+            "C10" => Some(&["/state.rs", "/strategy.rs"]),
             "C11" => Some(&["/net/", "/trippy-packet/"]),
             "C15" => Some(&["/flows.rs", "/state.rs"]),
             "C19" => Some(&["/state.rs", "/net/ipv4.rs", "/strategy.rs"]),
@@ -242,13 +243,26 @@ pub fn profile_name() -> &'static str {
 /// Runs in flight: worker thread -> (start, family index, seed or enumeration index,
 /// enumerated?).  A watchdog thread reports a run that does not return: code that loops
 /// without making a socket call is outside the reach of the call budget.
-static IN_FLIGHT: std::sync::Mutex<Vec<(std::thread::ThreadId, std::time::Instant, usize, u64, bool)>> = std::sync::Mutex::new(Vec::new());
+static IN_FLIGHT: std::sync::Mutex<Vec<(std::thread::ThreadId, std::time::Instant, usize, u64, bool, libc::clockid_t, f64)>> = std::sync::Mutex::new(Vec::new());
+
+/// Seconds on clock `clk`, read with the system call itself (the libc symbol is the
+/// simulator's virtual clock on threads that run a simulation).
+fn raw_clock_secs(clk: libc::clockid_t) -> Option<f64> {
+    let mut ts = libc::timespec { tv_sec: 0, tv_nsec: 0 };
+    let rc = unsafe { libc::syscall(libc::SYS_clock_gettime, clk, &mut ts as *mut libc::timespec) };
+    (rc == 0).then(|| ts.tv_sec as f64 + ts.tv_nsec as f64 / 1e9)
+}
 
 fn flight_begin(fam: usize, seed: u64, enumerated: bool) {
+    // the CPU-time clock of this worker thread: what the watchdog measures a run by, so that a
+    // machine busy with other work does not make a slow run look like one that never returns
+    let mut clk: libc::clockid_t = 0;
+    let have = unsafe { libc::pthread_getcpuclockid(libc::pthread_self(), &mut clk) } == 0;
+    let cpu0 = if have { raw_clock_secs(clk).unwrap_or(0.0) } else { -1.0 };
     if let Ok(mut v) = IN_FLIGHT.lock() {
         let id = std::thread::current().id();
         v.retain(|e| e.0 != id);
-        v.push((id, std::time::Instant::now(), fam, seed, enumerated));
+        v.push((id, std::time::Instant::now(), fam, seed, enumerated, clk, cpu0));
     }
 }
 
@@ -260,15 +274,28 @@ fn flight_end() {
 }
 
 /// Start the watchdog of a check: a run that has not returned after `VERIF_RUN_HANG_SECS`
-/// (default 30) wall-clock seconds is reported as a violation `<prop>.no-return` with a
+/// (default 30) seconds of CPU time on its worker thread is reported as a violation `<prop>.no-return` with a
 /// replay file naming the family and seed, and the process exits with the violation code
 /// (the stuck thread cannot be stopped).
 fn start_watchdog(prop: &'static str, tier: String, batch_seed: u64, families: Vec<&'static str>) {
     let limit = std::env::var("VERIF_RUN_HANG_SECS").ok().and_then(|s| s.parse::<u64>().ok()).unwrap_or(30);
     std::thread::spawn(move || loop {
         std::thread::sleep(std::time::Duration::from_millis(500));
-        let stuck = IN_FLIGHT.lock().ok().and_then(|v| v.iter().find(|e| e.1.elapsed().as_secs() >= limit).copied());
-        if let Some((_, start, fam, seed, enumerated)) = stuck {
+        // a run that has burnt `limit` seconds of CPU time on its thread (or, failing that
+        // measure, twenty times as much wall-clock time) is not going to return
+        let stuck = IN_FLIGHT.lock().ok().and_then(|v| {
+            v.iter()
+                .find(|e| {
+                    let wall = e.1.elapsed().as_secs();
+                    let cpu = if e.6 >= 0.0 { raw_clock_secs(e.5).map(|now| now - e.6) } else { None };
+                    match cpu {
+                        Some(c) => c >= limit as f64 || wall >= limit * 20,
+                        None => wall >= limit * 4,
+                    }
+                })
+                .copied()
+        });
+        if let Some((_, start, fam, seed, enumerated, _, _)) = stuck {
             let dir = simcore::verif_dir();
             let sig = format!("{}.no-return", prop.to_lowercase());
             let path = format!("{dir}/replays/{prop}-{sig}-{seed}.json");
@@ -281,7 +308,7 @@ fn start_watchdog(prop: &'static str, tier: String, batch_seed: u64, families: V
                 "enumerated": enumerated,
                 "signature": sig,
                 "kind": "no-return",
-                "detail": format!("the run did not return within {} s of wall-clock time (no socket call in between: the call budget does not apply); replay executes it again under the same watchdog", start.elapsed().as_secs()),
+                "detail": format!("the run did not return: {limit} s of CPU time on its thread used up ({} s of wall-clock time; no socket call in between: the call budget does not apply); replay executes it again under a watchdog", start.elapsed().as_secs()),
                 "tier": tier,
                 "batch_seed": batch_seed,
                 "profile": profile_name(),
@@ -621,7 +648,9 @@ pub fn run_replay(pc: &PropertyCheck, path: &str) -> i32 {
         let done2 = done.clone();
         std::thread::spawn(move || {
             let start = std::time::Instant::now();
-            while start.elapsed().as_secs() < limit {
+            let cpu0 = raw_clock_secs(libc::CLOCK_PROCESS_CPUTIME_ID).unwrap_or(0.0);
+            // (CPU time of the process, which runs nothing but this one run)
+            while raw_clock_secs(libc::CLOCK_PROCESS_CPUTIME_ID).map_or(start.elapsed().as_secs_f64() / 4.0, |c| c - cpu0) < limit as f64 && start.elapsed().as_secs() < limit * 20 {
                 std::thread::sleep(std::time::Duration::from_millis(200));
                 if done2.load(std::sync::atomic::Ordering::SeqCst) {
                     return;
